@@ -741,25 +741,33 @@ func (t *http2Server) updateWindow(s *ServerStream, n uint32) {
 // for the transport and the stream based on the current bdp
 // estimation.
 func (t *http2Server) updateFlowControl(n uint32) {
+	// The estimate may be smaller than a configured initial window; windows
+	// are only ever grown.
 	t.mu.Lock()
-	for _, s := range t.activeStreams {
-		s.fc.newLimit(n)
+	growStreams := n > uint32(t.initialWindowSize)
+	if growStreams {
+		for _, s := range t.activeStreams {
+			s.fc.newLimit(n)
+		}
+		t.initialWindowSize = int32(n)
 	}
-	t.initialWindowSize = int32(n)
 	t.mu.Unlock()
-	t.controlBuf.put(&outgoingWindowUpdate{
-		streamID:  0,
-		increment: t.fc.newLimit(n),
-	})
-	t.controlBuf.put(&outgoingSettings{
-		ss: []http2.Setting{
-			{
-				ID:  http2.SettingInitialWindowSize,
-				Val: n,
+	if w := t.fc.newLimit(n); w > 0 {
+		t.controlBuf.put(&outgoingWindowUpdate{
+			streamID:  0,
+			increment: w,
+		})
+	}
+	if growStreams {
+		t.controlBuf.put(&outgoingSettings{
+			ss: []http2.Setting{
+				{
+					ID:  http2.SettingInitialWindowSize,
+					Val: n,
+				},
 			},
-		},
-	})
-
+		})
+	}
 }
 
 func (t *http2Server) handleData(f *parsedDataFrame) {
